@@ -224,7 +224,10 @@ fn boxes_k<K: Kind>(c: &BoxCase, ctx: &mut Ctx) -> Result<(), Fail> {
     for (i, v) in views_.iter().enumerate() {
         all_parts.extend(v.parts.iter().cloned());
         if multi {
-            let r = ref_bbox(ty, &v.parts).expect("constructors guarantee a vertex");
+            let r = match ref_bbox(ty, &v.parts) {
+                Some(r) => r,
+                None => fail!("shape-bbox", "shape {} built from {} vertices holds no vertex at all; its box is {:?}", i, geoms[i].npoints(), v.bbox),
+            };
             for k in 0..8 {
                 ensure!(
                     num_eq(r[k], v.bbox[k]),
